@@ -32,6 +32,7 @@ __DISPATCH_WAIT_FOR_ENQUEUER__(void **ptr)
 
 	void *value;
 	while ((value = os_atomic_load(ptr, relaxed)) == NULL) {
+		DISPATCH_VERIF_PROBE(17);
 		_dispatch_preemption_yield(++spins);
 	}
 	return value;
